@@ -72,6 +72,9 @@ def features(schema_name):
         "derive_pe_eq": ({"derives": ["PartialEq", "Eq"]}, ["-a", "PartialEq", "-a", "Eq"], "derives = [PartialEq, Eq]"),
         "derive_path": ({"derives": ["schemars::JsonSchema"]}, ["--additional-derive", "schemars::JsonSchema"], "derives = [schemars::JsonSchema]"),
         "map_btree": ({"map_type": "::std::collections::BTreeMap"}, ["--map-type", "::std::collections::BTreeMap"], 'map_type = "::std::collections::BTreeMap"'),
+        # the same map types in the spellings users write: without the leading `::`
+        "map_btree_rel": ({"map_type": "std::collections::BTreeMap"}, ["--map-type", "std::collections::BTreeMap"], 'map_type = "std::collections::BTreeMap"'),
+        "map_vmap_rel": ({"map_type": "verif_support::ext::VMap"}, ["--map-type", "verif_support::ext::VMap"], 'map_type = "verif_support::ext::VMap"'),
         "map_vmap": ({"map_type": "::verif_support::ext::VMap"}, ["--map-type", "::verif_support::ext::VMap"], 'map_type = "::verif_support::ext::VMap"'),
         "unk_allow": ({"unknown_crates": "allow"}, ["--unknown-crates", "allow"], "unknown_crates = Allow"),
         "unk_deny": ({"unknown_crates": "deny"}, ["--unknown-crates", "deny"], "unknown_crates = Deny"),
@@ -125,7 +128,8 @@ def merge_settings(parts):
     return st
 
 
-EXCLUSIVE = [("derive_pe", "derive_pe_eq"), ("map_btree", "map_vmap"), ("unk_allow", "unk_deny"), ("unk_allow", "unk_generate"), ("unk_deny", "unk_generate")]
+EXCLUSIVE = [("derive_pe", "derive_pe_eq"), ("map_btree", "map_vmap"), ("map_btree", "map_btree_rel"), ("map_btree", "map_vmap_rel"), ("map_vmap", "map_btree_rel"), ("map_vmap", "map_vmap_rel"),
+             ("map_btree_rel", "map_vmap_rel"), ("unk_allow", "unk_deny"), ("unk_allow", "unk_generate"), ("unk_deny", "unk_generate")]
 
 
 def compatible(combo):
